@@ -32,7 +32,9 @@ RULE = ("histories of length 3-12 (thorough: up to 40) over 4-6 texts (valid lib
 ASSUMPTIONS = ["only blobs that the harness has verified NOT to unpickle are injected as corrupt entries",
                "'structurally identical' = equality of the canonical graph of everything reachable (per-instance __deepcopy__ hooks excluded)",
                "core workload: a file- or layout-level fault is followed by a reload before the next parse (a new process); the "
-               "extension workload (ext:fault-after-init) omits the reload"]
+               "extension workload (ext:fault-after-init) omits the reload",
+               "a structurally valid file with an index page of another generation is only injected before a reload: between the "
+               "per-process checks it is as undetectable as a blob that still unpickles to another tree"]
 REQUIRED_MONITORS = ["parse_results_compared", "db_row_checks", "faults_injected", "cache_hits_observed"]
 BUDGET = {"quick": 60, "thorough": 900}
 
@@ -306,9 +308,12 @@ class World:
         self.fault("break-layout:" + kind, file_level=True)
 
     def op_corrupt_file(self):
-        kind = self.r.choice(["garbage", "truncated", "zero-length", "delete", "directory"])
+        kind = self.r.choice(["garbage", "truncated", "zero-length", "delete", "directory", "index-of-another-generation",
+                              "index-of-another-generation"])
         if not os.path.exists(self.db):
             return
+        if kind == "index-of-another-generation":
+            return self.op_swap_index()
         if kind == "directory" and os.path.isdir(self.db):
             return
         if os.path.isdir(self.db):
@@ -340,6 +345,50 @@ class World:
                     self.file_corrupt = False      # an empty file is a valid, empty sqlite database
         self.ops.append(["corrupt-file", kind])
         self.fault("corrupt-file:" + kind, file_level=True)
+
+    def op_swap_index(self):
+        """a structurally valid file whose index page comes from another generation of the same database (as a lost
+        or torn page write leaves it): the primary-key index then points text A at the row of text B.  Only
+        PRAGMA integrity_check notices; a lookup through the index would serve B's tree for A."""
+        if self.file_corrupt or os.path.isdir(self.db) or self.ext == "ext:fault-after-init":
+            # without a new process nothing short of an integrity check on every call could notice this damage
+            return
+        sib = self.db + ".sibling"
+        try:
+            c = self.raw()
+            rows = c.execute("SELECT txt_hash, pymoca_version, data, last_hit FROM models ORDER BY rowid").fetchall()
+            schema = [r_[0] for r_ in c.execute("SELECT sql FROM sqlite_master WHERE sql IS NOT NULL ORDER BY rowid")]
+            meta = c.execute("SELECT key, value FROM metadata").fetchall()
+            ps = c.execute("PRAGMA page_size").fetchone()[0]
+            root = c.execute("SELECT rootpage FROM sqlite_master WHERE type='index' AND tbl_name='models'").fetchone()
+            c.close()
+            if len(rows) < 2 or root is None or any(not isinstance(r_[2], bytes) for r_ in rows):
+                return
+            if os.path.exists(sib):
+                os.remove(sib)
+            s2 = sqlite3.connect(sib, isolation_level=None)
+            for q in schema:
+                s2.execute(q)
+            s2.executemany("INSERT INTO metadata (key, value) VALUES (?, ?)", meta)
+            s2.executemany("INSERT INTO models (txt_hash, pymoca_version, data, last_hit) VALUES (?,?,?,?)", list(reversed(rows)))
+            root2 = s2.execute("SELECT rootpage FROM sqlite_master WHERE type='index' AND tbl_name='models'").fetchone()
+            ps2 = s2.execute("PRAGMA page_size").fetchone()[0]
+            s2.close()
+            if root2 != root or ps2 != ps:
+                return
+            with open(sib, "rb") as f:
+                f.seek((root[0] - 1) * ps)
+                page = f.read(ps)
+            with open(self.db, "r+b") as f:
+                f.seek((root[0] - 1) * ps)
+                f.write(page)
+        except sqlite3.Error:
+            return
+        finally:
+            if os.path.exists(sib):
+                os.remove(sib)
+        self.ops.append(["corrupt-file", "index-of-another-generation"])
+        self.fault("corrupt-file:index-of-another-generation", file_level=True)
 
     def fault(self, tag, file_level):
         self.fault_count += 1
